@@ -15,6 +15,12 @@ impl ManualHeap {
         }
 
         let bytes = allocation_bytes(size)?;
+        // charge first: a request whose charge does not fit must fail before the slot
+        // table and the free list are touched
+        let new_total = self
+            .bytes_allocated
+            .checked_add(bytes)
+            .ok_or(ManualHeapError::InvalidSize)?;
         let allocation = ManualAllocation {
             data: vec![Value::null(); size],
             freed: false,
@@ -33,10 +39,7 @@ impl ManualHeap {
             idx
         };
 
-        self.bytes_allocated = self
-            .bytes_allocated
-            .checked_add(bytes)
-            .ok_or(ManualHeapError::InvalidSize)?;
+        self.bytes_allocated = new_total;
 
         Ok(handle)
     }
